@@ -6,6 +6,7 @@ package squ
 
 import (
 	"fmt"
+	"regexp"
 	"sort"
 	"strings"
 )
@@ -174,6 +175,23 @@ var Features = []Feature{
 	{Name: "col_v_default_exponent", Apply: func(d *DB) {
 		t := d.Table("t")
 		t.Cols = append(t.Cols, Col{Name: "v", Type: "real", Default: "1e3", DefExpr: true})
+	}},
+	// columns whose names read like numbers that are not in canonical form; each is indexed, so the
+	// export has to refer to it.
+	{Name: "col_named_007_indexed", Apply: func(d *DB) {
+		t := d.Table("t")
+		t.Cols = append(t.Cols, Col{Name: "007", Type: "integer"})
+		t.Idx = append(t.Idx, Idx{Name: "idx_007", Parts: []Part{{Col: "007"}}})
+	}},
+	{Name: "col_named_1e3_and_1000_indexed", Apply: func(d *DB) {
+		t := d.Table("t")
+		t.Cols = append(t.Cols, Col{Name: "1e3", Type: "integer"}, Col{Name: "1000", Type: "integer"})
+		t.Idx = append(t.Idx, Idx{Name: "idx_1e3", Parts: []Part{{Col: "1e3"}}})
+	}},
+	// a default expression whose text holds the template markers of HCL.
+	{Name: "col_x1_default_expr_with_template_markers", Apply: func(d *DB) {
+		t := d.Table("t")
+		t.Cols = append(t.Cols, Col{Name: "x1", Type: "text", Default: "printf('${%s} %%{x}', 'a')", DefExpr: true})
 	}},
 	{Name: "col_w_default_blob", Apply: func(d *DB) {
 		t := d.Table("t")
@@ -644,6 +662,16 @@ func hclType(t string) string {
 	return strings.ToLower(t)
 }
 
+var reBareStep = regexp.MustCompile(`^[A-Za-z_][A-Za-z0-9_]*$`)
+
+// step renders one step of an HCL reference: .name where the name is an identifier, ["name"] otherwise.
+func step(name string) string {
+	if reBareStep.MatchString(name) {
+		return "." + name
+	}
+	return "[" + hclStr(name) + "]"
+}
+
 func hclStr(s string) string {
 	return `"` + strings.NewReplacer(`\`, `\\`, `"`, `\"`, "\n", `\n`, "${", "$${", "%{", "%%{").Replace(s) + `"`
 }
@@ -688,7 +716,7 @@ func (d *DB) HCL() string {
 		if len(t.PK) > 0 {
 			cols := make([]string, len(t.PK))
 			for i, c := range t.PK {
-				cols[i] = "column." + c
+				cols[i] = "column" + step(c)
 			}
 			fmt.Fprintf(&b, "  primary_key {\n    columns = [%s]\n  }\n", strings.Join(cols, ", "))
 		}
@@ -699,13 +727,13 @@ func (d *DB) HCL() string {
 			}
 			var cols, refs []string
 			for _, c := range fk.Cols {
-				cols = append(cols, "column."+c)
+				cols = append(cols, "column"+step(c))
 			}
 			for _, c := range fk.RefCols {
 				if fk.RefTable == t.Name {
-					refs = append(refs, "column."+c)
+					refs = append(refs, "column"+step(c))
 				} else {
-					refs = append(refs, "table."+fk.RefTable+".column."+c)
+					refs = append(refs, "table."+fk.RefTable+".column"+step(c))
 				}
 			}
 			fmt.Fprintf(&b, "  foreign_key %s {\n    columns = [%s]\n    ref_columns = [%s]\n", hclStr(name), strings.Join(cols, ", "), strings.Join(refs, ", "))
@@ -731,7 +759,7 @@ func (d *DB) HCL() string {
 			if simple {
 				var cols []string
 				for _, p := range ix.Parts {
-					cols = append(cols, "column."+p.Col)
+					cols = append(cols, "column"+step(p.Col))
 				}
 				fmt.Fprintf(&b, "    columns = [%s]\n", strings.Join(cols, ", "))
 			} else {
@@ -740,7 +768,7 @@ func (d *DB) HCL() string {
 					if p.Expr != "" {
 						fmt.Fprintf(&b, "      expr = %s\n", hclStr(p.Expr))
 					} else {
-						fmt.Fprintf(&b, "      column = column.%s\n", p.Col)
+						fmt.Fprintf(&b, "      column = column%s\n", step(p.Col))
 					}
 					if p.Desc {
 						b.WriteString("      desc = true\n")
